@@ -82,6 +82,13 @@ def attrsLen (f : LenFacts) : Nat := 8 + 39 + 15 + 10 + (if f.secure then 8 else
 
 def lineLen (f : LenFacts) (nameLen gob : Nat) : Nat := nameLen + 1 + valueLen f gob + attrsLen f
 
+/-- the attributes of a Set-Cookie line as net/http prints them for the `sessions.Options` of `getSessionOptions`, in order, without
+    the `Expires` attribute (whose value is the date `Max-Age` seconds ahead); `maxAge ≤ 0` is how a cookie is deleted -/
+def attrsOf (secure : Bool) (maxAge : Int) : List String :=
+  ["Path=/", if maxAge > 0 then s!"Max-Age={maxAge}" else "Max-Age=0", "HttpOnly"] ++ (if secure then ["Secure"] else []) ++ ["SameSite=Lax"]
+
+def attrsText (secure : Bool) (maxAge : Int) : String := "; ".intercalate (attrsOf secure maxAge)
+
 /-- chunk cookie `{"token_chunk": c}` -/
 def chunkGob (n : Nat) : Nat := gobMap 1 (ifaceStr 11 + ifaceStr n)
 /-- whole-token cookie `{"token": z, "compressed": true}` -/
